@@ -4,11 +4,11 @@ seeded/NAME/ (patch.diff, demo, meta.json augmented with the lead's own confirma
 import json, os, shutil, sys, re
 ID, NAME = sys.argv[1], sys.argv[2]
 _here = os.path.dirname(os.path.abspath(__file__))
-NOTE = sys.argv[3] if len(sys.argv) > 3 else json.load(open(os.path.join(_here, "seed_notes.json")))[ID]
+NOTE = sys.argv[3] if len(sys.argv) > 3 else json.load(open(os.path.join(_here, "seed_notes.json")))[NAME]
 _cn = {}
 if os.path.exists(os.path.join(_here, "confirm_notes.json")):
     _cn = json.load(open(os.path.join(_here, "confirm_notes.json")))
-src = "/tmp/wt-%s-out" % ID
+src = "%s%s-out" % (os.environ.get("WTPREFIX", "/tmp/wt-"), ID)
 dst = os.path.join(os.path.dirname(os.path.dirname(os.path.abspath(__file__))), "seeded", NAME)
 os.makedirs(dst, exist_ok=True)
 shutil.copy(os.path.join(src, "patch.diff"), dst)
@@ -34,8 +34,8 @@ meta["confirmed_by_lead"] = {
                   "verify()/vgen/zdistutils files serially in full)" % ID,
     "verdict": verdict,
 }
-if ID in _cn:
-    meta["confirmed_by_lead"]["note"] = _cn[ID]
+if NAME in _cn:
+    meta["confirmed_by_lead"]["note"] = _cn[NAME]
 meta["detection"] = NOTE
 json.dump(meta, open(os.path.join(dst, "meta.json"), "w"), indent=1)
 print("kept", dst, verdict)
